@@ -377,6 +377,12 @@ def run_history(ctx, variant, n, lim, plus, steps, save_at, record):
         except Exception as e:  # noqa: BLE001
             fails.append(f"strategy query raises {type(e).__name__}: {e}")
             break
+        # the exact-rational model of one iteration on float32-derived states gets very slow for the largest trees (n = 4 with
+        # limits 7, 8: 848 / 968 nodes took many minutes per step): those steps are judged by the oracle only
+        model_affordable = state[0].shape[0] <= 640
+        if not model_affordable:
+            ctx.count("lock_step_skipped_model_too_slow", f"{state[0].shape[0]}x{state[0].shape[1]}")
+        finite = finite and model_affordable
         if finite:
             lines.append(step_line(variant, step is not None, cfg, stored_lim, state, step, pasts))
         if step is None:
